@@ -111,3 +111,31 @@ def dump_guards(prog, fn, enum_paths):
                     ctl.append((cmp[5], cmp[1], sorted(side_tokens(fn, cmp[2])), sorted(side_tokens(fn, cmp[3]))))
             rows.append((v["n"], [fn.block_line(s) for s in sites], ctl))
     return rows
+
+
+def find_presence_guard(prog, fn, enum_path, variant, need, adapters=r"::(is_some|is_none|is_ok|is_err|is_empty)$"):
+    """A presence test (`x.is_some()`, `x.is_none()`, `.is_empty()`) whose receiver carries the tokens `need` and one of
+    whose outcomes leads to the construction of `variant` without being able to reach a success return."""
+    from .prims import presence_edges
+    sites = error_sites(fn, enum_path, variant)
+    if not sites:
+        return "no-site", "error variant %s is not constructed" % variant
+    oks = ok_return_blocks(fn)[0]
+    rx_ = re.compile(adapters)
+    seen = False
+    for bi, t in fn.calls():
+        c = fn.callee_of(t) or ""
+        if not rx_.search(c) or fn.blocks[bi]["cl"]:
+            continue
+        toks = side_tokens(fn, t["args"][0])
+        if not need <= toks:
+            continue
+        seen = True
+        for sw in switch_edges_on_local(fn, t["dest"][0]):
+            for rej, acc in ((sw["true"], sw["false"]), (sw["false"], sw["true"])):
+                reach = fn.reachable([rej], avoid_edges=[(sw["sw"], acc)], avoid_blocks=[sw["sw"]])
+                if any(s in reach for s in sites) and not any(o in reach for o in oks):
+                    return "ok", "%s: presence test@%s gates %s" % (fn.name, t.get("line"), variant)
+    if seen:
+        return "not-gating", "presence test on {%s} does not gate %s" % (",".join(sorted(need)), variant)
+    return "no-compare", "no presence test on {%s} in %s" % (",".join(sorted(need)), fn.id)
